@@ -16,7 +16,7 @@ confirm = subprocess.run(["/verif/lib/confirm_seed.sh", pid, v], stdout=subproce
 meta["breaks_property"] = pid
 meta["confirmed_by_me"] = confirm.strip().splitlines()
 meta["check_result"] = {"detected": detected, "note": note,
-                        "how_run": "git -C /repo apply seeded/%s-%s/patch.diff; ./check %s --tier quick; git -C /repo checkout -- ." % (pid, label, pid)}
+                        "how_run": "git -C /repo apply seeded/%s-%s/patch.diff; ./check %s --tier quick; git -C /repo checkout -- . && git -C /repo clean -fdq" % (pid, label, pid)}
 meta["origin"] = "independent sub-agent given only the property text and a scratch worktree (/tmp/seed/%s); demo paths refer to that worktree" % pid
 json.dump(meta, open(dst + "/meta.json", "w"), indent=1)
 print("kept", dst)
